@@ -114,7 +114,10 @@ Definition block_indent_remover (s : str) (start_pos end_pos : nat) : res (list 
          | Some pos => x <- csub start_pos pos ;; csub x 1
          | None => Ok 0
          end ;;
-  let current_pos := start_pos + 1 in
+  let current_pos := match find_next_lb s start_pos false with
+                     | Some pos => pos + 1
+                     | None => length s
+                     end in
   first <- get_indent_len s current_pos ;;
   let len := first - ofs in          (* saturating_sub *)
   Ok (block_loop (S (length s)) s end_pos current_pos ofs len []).
